@@ -720,6 +720,11 @@ class _Run:
         sps = PROBE_JOBS.get((kind, nested))
         if sps is None:
             return
+        if kind == "leafnode_path":
+            # the third job's path sorts between the leaf ('a0/1/job') and what lies below it ('a0/1/job/2/...')
+            third = [None, {"a0": 1, "job": {"x": 3}}, {"a0": 1, "job-nr": 4}, {"a0": 1, "job 2": 4}][int(op.get("third", 0)) % 4]
+            if third is not None:
+                sps = sps[:2] + [third, {"b": 0}]  # (the fourth, without a0, keeps a0 in the paths and in front)
         project = self.proj()
         ids = []
         for sp in sps:
@@ -730,7 +735,7 @@ class _Run:
         elif kind == "leafnode_path":
             perm = list(itertools.permutations(range(3)))[int(op.get("order", 0)) % 6]
             live_ids = [j[0] for j in read_live(self.root)]
-            subset = [live_ids.index(ids[k]) for k in perm]
+            subset = [live_ids.index(ids[k]) for k in perm] + [live_ids.index(i) for i in ids[3:]]
             path = "lp/{{auto}}" if op.get("custom", True) else None
         self.view(subset, path, probe=kind)
         project = self.proj()
@@ -881,7 +886,7 @@ def ops_strategy(name):
     probe = st.one_of(
         st.fixed_dictionaries({"op": st.just("reject_probe"), "kind": st.sampled_from(["sep_in_value", "sep_in_key"]), "nested": st.booleans()}),
         st.just({"op": "reject_probe", "kind": "nonunique_path"}),
-        st.fixed_dictionaries({"op": st.just("reject_probe"), "kind": st.just("leafnode_path"), "order": st.integers(0, 5), "custom": st.booleans()}),
+        st.fixed_dictionaries({"op": st.just("reject_probe"), "kind": st.just("leafnode_path"), "order": st.integers(0, 5), "custom": st.booleans(), "third": st.integers(0, 3)}),
     )
     mutate = st.one_of(add, add, remove, remove, rekey, rekey, rekey_all)
     # a round: some changes of the data space, then a look at the view
@@ -936,6 +941,9 @@ CONSTRUCTED = [
 ] + [
     {"universe": "jobkey", "fresh": False, "ops": _adds([{"a": 1}, {"a": 2}]) + [_v(), {"op": "reject_probe", "kind": "leafnode_path", "order": k, "custom": c}, _v(), AGAIN]}
     for k in range(6) for c in (True, False)
+] + [
+    {"universe": "jobkey", "fresh": False, "ops": _adds([{"a": 1}, {"a": 2}]) + [_v(), {"op": "reject_probe", "kind": "leafnode_path", "order": k, "custom": c, "third": t}, _v(), AGAIN]}
+    for k, c, t in ((0, False, 1), (3, True, 1), (1, False, 2), (4, True, 3), (5, False, 1), (2, False, 3))
 ] + [
     # heterogeneous schema: a job without distinguishing key
     {"universe": "hetero", "fresh": False, "ops": _adds([{"a": 1, "b": 1}, {"a": 1, "b": 2}]) + [_v()] + _adds([{"a": 1}]) + [_v(), AGAIN]
